@@ -34,6 +34,9 @@ DEDUCTIBLE = [
 ]
 WITHHOLDING = [r'^w-2:\d+\.box_2$', r'^1099-(int|div|r|g):\d+\.box_4$', r'^1040\.(other_federal_withholding|estimated_tax_payments)$']
 WAGES = [r'^w-2:\d+\.box_1$']
+# state withholding boxes and the box naming the state they were withheld for
+NC_WITHHOLDING = [('w-2', 'box_17', 'box_15'), ('1099-r', 'box_14_1', 'box_14_1_state'), ('1099-r', 'box_14_2', 'box_14_2_state'),
+                  ('1099-g', 'box_11_1', 'box_10a_1'), ('1099-int', 'box_17_1', 'box_15_1'), ('1099-div', 'box_16_1', 'box_14_1')]
 
 
 def matches(key, pats):
@@ -153,6 +156,11 @@ def shard(ctx, k, payload):
                 n_ = 0
             wcands += [f'{form_}:{c_}.{box_}' for c_ in range(n_) if f'{form_}:{c_}.{box_}' not in inputs]
         more = [('withhold', k_) for k_ in sorted(set(wcands))] + [('deduct', k_) for k_ in sorted(k_ for k_ in inputs if matches(k_, DEDUCTIBLE))]
+        if 'nc19' in bq:
+            for form_, box_, st_ in NC_WITHHOLDING:
+                for k_ in sorted(inputs):
+                    if k_.startswith(form_ + ':') and k_.endswith('.' + st_) and inputs[k_].strip() == 'NC':
+                        more.append(('ncwithhold', k_.rsplit('.', 1)[0] + '.' + box_))
         if len(more) > nvar * 2:
             more = data.draw(st.lists(st.sampled_from(more), min_size=nvar * 2, max_size=nvar * 2, unique=True))
         tasks += more
@@ -180,7 +188,7 @@ def shard(ctx, k, payload):
                     ctx.nt({'b': inputs, 'f': form, 'p': perm})
                 ctx.count('pairs:perm')
                 continue
-            pats = {'wage': WAGES, 'deduct': DEDUCTIBLE, 'withhold': WITHHOLDING}[kind]
+            pats = {'wage': WAGES, 'deduct': DEDUCTIBLE, 'withhold': WITHHOLDING, 'ncwithhold': []}[kind]
             cands = sorted(k_ for k_ in inputs if matches(k_, pats))
             if preset is not None:
                 cands = [preset]
@@ -199,6 +207,8 @@ def shard(ctx, k, payload):
                 continue
             key = data.draw(st.sampled_from(cands))
             delta = data.draw(st.sampled_from([0.01, 1.0, 37.5, 250.0, 1000.0, 4321.09, 10000.0, 60000.0, 100000.0]))
+            if kind == 'ncwithhold':
+                delta = float(data.draw(st.sampled_from([1, 37, 250, 1000, 4321])))     # the state form works in whole dollars
             if kind == 'wage' and data.draw(st.booleans()) and isinstance(base.values.get('1040.11'), (int, float)):
                 # cliff hunting: statutory thresholds sit on round amounts of AGI. Put one return exactly on a round
                 # amount and its partner a little above it, and compare those two (the second has more wages)
@@ -266,7 +276,15 @@ def shard(ctx, k, payload):
             elif kind == 'deduct':
                 if q2['tax24'] > bqp['tax24'] + 0.011:
                     ctx.violation(f'deduct:tax-increases:{kb}', f'{year}: {key} +{delta} raises total tax from {bqp["tax24"]} to {q2["tax24"]}', case)
+                if 'nc19' in bqp and 'nc19' in q2 and q2['nc19'] > bqp['nc19'] + 1.01:
+                    ctx.violation(f'deduct:nc-tax-increases:{kb}', f'{year}: {key} +{delta} raises N.C. tax from {bqp["nc19"]} to {q2["nc19"]}', case)
                 changed = q2['tax24'] != bqp['tax24']
+            elif kind == 'ncwithhold':
+                if 'ncnet' in bqp and 'ncnet' in q2:
+                    if abs((q2['ncnet'] - bqp['ncnet']) - delta) > 1.51:
+                        ctx.violation(f'ncwithhold:not-dollar-for-dollar:{kb}', f'{year}: {key} +{delta} (withheld for N.C.) moves the N.C. refund-minus-due by {q2["ncnet"] - bqp["ncnet"]:.2f}', case)
+                    ctx.count('pairs:ncwithhold_compared')
+                changed = True
             else:
                 if abs((q2['net'] - bqp['net']) - delta) > 0.011:
                     ctx.violation(f'withhold:not-dollar-for-dollar:{kb}', f'{year}: {key} +{delta} moves refund-minus-owed by {q2["net"] - bqp["net"]:.2f}', case)
@@ -374,6 +392,9 @@ def shard_cliffs(ctx, k, payload):
             if qb['tax24'] > qa['tax24'] + 0.011:
                 ctx.violation(f'deduct:tax-increases:{kb_}', f'{sc["year"]}: {dk} {dt} -> {dt + eps_} raises total tax from {qa["tax24"]} to {qb["tax24"]}',
                               {'scenario': {'year': sc['year'], 'forms': sc['forms'], 'inputs': dict(solve.config_to_dict(ra.store.config), **{dk: f'{dt:.2f}'})}, 'kind': 'deduct', 'key': dk, 'delta': eps_})
+            if 'nc19' in qa and 'nc19' in qb and qb['nc19'] > qa['nc19'] + 1.01:
+                ctx.violation(f'deduct:nc-tax-increases:{kb_}', f'{sc["year"]}: {dk} {dt} -> {dt + eps_} raises N.C. tax from {qa["nc19"]} to {qb["nc19"]}',
+                              {'scenario': {'year': sc['year'], 'forms': sc['forms'], 'inputs': dict(solve.config_to_dict(ra.store.config), **{dk: f'{dt:.2f}'})}, 'kind': 'deduct', 'key': dk, 'delta': eps_})
             if qa['tax24'] != qb['tax24']:
                 ctx.nt(f'dcliff|{sc["year"]}|{dk}|{dt}|{eps_}')
         # from the highest down; below some income the household enters a range HabuTax does not compute
@@ -424,5 +445,9 @@ def replay(ctx, case):
         ctx.violation('wage:nc-tax-decreases', f'{key} +{delta}: NC tax {bq["nc19"]} -> {q2["nc19"]}', case)
     if case['kind'] == 'deduct' and q2['tax24'] > bq['tax24'] + 0.011:
         ctx.violation(f'deduct:tax-increases:{kb}', f'{key} +{delta}: {bq["tax24"]} -> {q2["tax24"]}', case)
+    if case['kind'] == 'deduct' and 'nc19' in bq and 'nc19' in q2 and q2['nc19'] > bq['nc19'] + 1.01:
+        ctx.violation(f'deduct:nc-tax-increases:{kb}', f'{key} +{delta}: N.C. tax {bq["nc19"]} -> {q2["nc19"]}', case)
+    if case['kind'] == 'ncwithhold' and 'ncnet' in bq and 'ncnet' in q2 and abs((q2['ncnet'] - bq['ncnet']) - delta) > 1.51:
+        ctx.violation(f'ncwithhold:not-dollar-for-dollar:{kb}', f'{key} +{delta}: moves by {q2["ncnet"] - bq["ncnet"]:.2f}', case)
     if case['kind'] == 'withhold' and abs((q2['net'] - bq['net']) - delta) > 0.011:
         ctx.violation(f'withhold:not-dollar-for-dollar:{kb}', f'{key} +{delta}: moves by {q2["net"] - bq["net"]:.2f}', case)
